@@ -2,7 +2,7 @@
 # tools/suite_mutant.sh <patch.diff>  - repository suite on a scratch worktree of /repo HEAD with the patch applied (never /repo itself); prints the summary line
 PATCH=$(readlink -f "$1")
 WT=/tmp/suite-$$
-git -C /repo worktree add --detach "$WT" HEAD >/dev/null 2>&1 || exit 2
+git -C /repo worktree add --detach "$WT" ${BASE:-HEAD} >/dev/null 2>&1 || exit 2
 cd "$WT" || exit 2
 git apply "$PATCH" || { echo "PATCH DOES NOT APPLY"; cd /; git -C /repo worktree remove --force "$WT"; exit 2; }
 env -u SYNAPGRAD_VERIF OMP_NUM_THREADS=2 OPENBLAS_NUM_THREADS=2 MKL_NUM_THREADS=2 PYTHONPATH="$WT" /venv/bin/python -m pytest -q -p no:cacheprovider --timeout=1800 tests 2>&1 | tail -1 | sed 's/^/suite: /'
